@@ -192,7 +192,7 @@ func (s c05Sel) coq() string {
 	case "field":
 		return fmt.Sprintf("(RSel (SField %s))", coqNatList(s.Path))
 	case "method":
-		return fmt.Sprintf("(RSel (SMethod %s %s))", coqNatList(s.Path), coqN(s.Meth.ID))
+		return fmt.Sprintf("(RSel (SMethod %s (mkM %s %s %s %s)))", coqNatList(s.Path), coqStr(s.Meth.Name), coqBool(s.Meth.Ptr), coqN(s.Meth.Sig), coqN(s.Meth.ID))
 	case "ambig":
 		return "RAmbig"
 	}
